@@ -12,6 +12,6 @@ git -C "$W" apply "$SD/patch.diff" || { echo "PATCH DOES NOT APPLY"; git -C /rep
 ST=$(/tmp/mut/run_stable.sh "$W" 2>&1 | tail -1); echo "stable tests with change: $ST"
 R1=$(run_demo); echo "demo with change: exit $R1 ($(tail -1 $W/demo.out 2>/dev/null | cut -c1-120))"
 git -C /repo worktree remove --force "$W"
-rm -rf /tmp/mut/*-scratch/demo* 2>/dev/null
+
 [ "$R0" = "0" ] && [ "$R1" != "0" ] && [[ "$ST" == PASS* ]] && { echo "CONFIRMED $ID"; exit 0; }
 echo "NOT CONFIRMED $ID"; exit 1
